@@ -147,6 +147,7 @@ class Run:
         self.sent_hold = False          # the next SearchRequestSentEvent meets a listener that suspends
         self.sheld: list[dict] = []     # searches whose sent event is being delivered to such a listener
         self.cmds: dict[int, object] = {}   # entity -> the command object that created it
+        self.lst = '' if cfg.get('lst', '-') == '-' else str(cfg.get('lst'))
 
     # -- recording ---------------------------------------------------------
     def now_ms(self) -> int:
@@ -281,7 +282,7 @@ class Run:
             elif rig == 'F':
                 await self._setup_full()
             self.t0 = loop.time()
-            self.log('init', rt=int(self.cfg.get('rt', 0)) * 1000,
+            self.log('init', nl=len(self.lst), rt=int(self.cfg.get('rt', 0)) * 1000,
                      wt=(int(self.cfg.get('wt', 0)) * 1000 if int(self.cfg.get('wt', 0)) >= 0 else -1))
             last_op_tick = 0
             nticks = 0
@@ -331,6 +332,27 @@ class Run:
         bus.register(SearchRequestSentEvent, self._keep[3])
         bus.register(SearchResultEvent, self._keep[1])
         bus.register(SearchRequestRemovedEvent, self._keep[2])
+        # the application's listeners of SearchRequestRemovedEvent (after the recorder's own):
+        # s = plain function, a = coroutine that does not suspend, u = coroutine that really suspends
+        for i, ch in enumerate(self.lst, 1):
+            fn = self._app_listener(i, ch)
+            self._keep.append(fn)
+            bus.register(SearchRequestRemovedEvent, fn)
+
+    def _app_listener(self, i, ch):
+        def told(event):
+            self.log('ltold', e=self.ent_of(event.query), i=i)
+        if ch == 's':
+            return told
+        if ch == 'a':
+            async def listener_a(event):
+                told(event)
+            return listener_a
+
+        async def listener_u(event):
+            await asyncio.sleep(0)          # e.g. a queue put / a database write
+            told(event)
+        return listener_u
 
     async def _setup_light(self):
         from ..simserver import make_client
@@ -664,6 +686,9 @@ REQ_ACTIONS = ['Search', 'CmdSearch', 'WlMsg', 'Remove', 'Reply', 'Yield', 'Adva
                'RunDue', 'RunCallback', 'RunUnset', 'RunWishlist', 'RunWlDue']
 HELD_ACTIONS = ['Search', 'Remove', 'ReplyHeld', 'ReplyRelease', 'RunReplyArrive', 'RunReplyResume', 'Yield',
                 'Advance', 'RunFirst', 'RunCancelled', 'RunDue', 'RunCallback', 'RunUnset']
+LST_ACTIONS = ['Search', 'Remove', 'WlMsg', 'Yield', 'Advance', 'RunFirst', 'RunCancelled', 'RunDue', 'RunCallback',
+               'RunEmitResume', 'RunUnset', 'RunWishlist', 'RunWlDue']
+LST_CODES = ['s', 'a', 'u', 'us', 'su', 'ua', 'au', 'uu', 'sa']
 SENT_ACTIONS = ['CmdSearch', 'Remove', 'SearchRm', 'SearchHeld', 'SentRelease', 'CmdAgain', 'RunSearchArrive',
                 'RunSearchResume', 'Yield', 'Advance', 'RunFirst', 'RunCancelled', 'RunDue', 'RunCallback', 'RunUnset']
 TIMER_ACTIONS = ['TNew', 'TStart', 'TCancel', 'TResched', 'Yield', 'Advance', 'RunFirst', 'RunCancelled', 'RunDue',
@@ -821,7 +846,7 @@ def random_request_scenario(rng, rig):
             ticks += 1
             if wl:
                 created += items if rng.random() < 0.4 else 0
-    return dict(rig=rig, rt=rt, wt=wt, items=items), tuple(st)
+    return dict(rig=rig, rt=rt, wt=wt, items=items, lst=rng.choice(['-'] + LST_CODES)), tuple(st)
 
 
 def random_timer_scenario(rng):
@@ -928,6 +953,9 @@ def fingerprint(tid, info, trace):
         return f"C18:QuietAfterManualRemoval:{ev.get('ev')}-event-after-manual-removal"
     if name == 'RemovedOnceAtTimeout':
         return 'C18:RemovedOnceAtTimeout:removal-reported-for-non-live-request-or-at-wrong-time'
+    if name in ('AllTold', 'ReportedToEveryListener'):
+        return ('C18:ReportedToEveryListener:removal-not-reported-to-every-listener' if name == 'AllTold'
+                else 'C18:ReportedToEveryListener:listener-told-twice-or-at-wrong-time')
     if name == 'NoOverdue':
         return 'C18:NoOverdue:deadline-passed-without-' + ('timer-callback' if any(
             r['ev'] == 'tnew' for r in prefix) else 'removal')
@@ -1000,6 +1028,13 @@ def corruptions(trace, need):
                     and any(r['ev'] == 'create' and r['e'] == e for r in trace[:i])
                     and first(lambda j, r: r['ev'] == 'rin') > first(lambda j, r: r['ev'] == 'create' and r['e'] == e)):
                 yield 'drop-result-of-reply-in-flight', edit(lambda t: t.pop(i))
+    if need & {'drop-listener-report', 'duplicate-listener-report'}:
+        i = first(lambda i, r: r['ev'] == 'ltold')
+        if i is not None:
+            if 'drop-listener-report' in need:
+                yield 'drop-listener-report', edit(lambda t: t.pop(i))
+            if 'duplicate-listener-report' in need:
+                yield 'duplicate-listener-report', edit(lambda t: t.insert(i + 1, copy.deepcopy(t[i])))
     if 'fire-after-cancel' in need:
         i = first(lambda i, r: r['ev'] == 'tcancel')
         if i is not None:
@@ -1036,13 +1071,15 @@ def run(chk: Check, args):
     from concurrent.futures import ThreadPoolExecutor
     deviations = (('MC_req_code_remove.cfg', 'NoLoopError'), ('MC_req_code_gen.cfg', 'DistinctTickets'),
                   ('MC_timer_code.cfg', 'SupersededNeverFires'), ('MC_req_code_reply.cfg', 'ResultIffLive'),
-                  ('MC_req_code_start.cfg', 'NoLoopError'), ('MC_req_code_recmd.cfg', 'DistinctTickets'))
-    with ThreadPoolExecutor(max_workers=3) as pool:
+                  ('MC_req_code_start.cfg', 'NoLoopError'), ('MC_req_code_recmd.cfg', 'DistinctTickets'),
+                  ('MC_req_code_selfcancel.cfg', 'AllTold'))
+    with ThreadPoolExecutor(max_workers=4) as pool:
         f_req = pool.submit(dump_cover, 'MC_req_tiny.cfg')
         f_tm = pool.submit(dump_cover, 'MC_timer_tiny.cfg')
         f_held = pool.submit(dump_cover, 'MC_req_held_tiny.cfg')
         f_sent = pool.submit(dump_cover, 'MC_req_sent_tiny.cfg')
-        f_dev = [pool.submit(tlc.run_tlc, SPEC, cfg, timeout=900) for cfg, _ in deviations]
+        f_lst = pool.submit(dump_cover, 'MC_req_lst_tiny.cfg')
+        f_dev = [pool.submit(tlc.run_tlc, SPEC, cfg, workers=2, timeout=900) for cfg, _ in deviations]
         scheds_req = cover_schedules(chk, 'MC_req_tiny.cfg', 'SearchRequests requests tiny (exhaustive)',
                                      REQ_ACTIONS, f_req.result())
         scheds_tm = cover_schedules(chk, 'MC_timer_tiny.cfg', 'SearchRequests timer tiny (exhaustive)',
@@ -1053,6 +1090,9 @@ def run(chk: Check, args):
         # listeners of SearchRequestSentEvent that remove the request / suspend; commands executed again
         scheds_sent = cover_schedules(chk, 'MC_req_sent_tiny.cfg', 'SearchRequests sent-event listeners tiny (exhaustive)',
                                       SENT_ACTIONS, f_sent.result())
+        # the application's listeners of SearchRequestRemovedEvent: one that suspends, then a plain one
+        scheds_lst = cover_schedules(chk, 'MC_req_lst_tiny.cfg', 'SearchRequests removed-event listeners tiny (exhaustive)',
+                                     LST_ACTIONS, f_lst.result())
         # the code's position of each switch must break the property it is about
         for (cfg, prop), fut in zip(deviations, f_dev):
             r = fut.result()
@@ -1088,10 +1128,11 @@ def run(chk: Check, args):
             chk.rng.shuffle(keys)
             keys = sorted(keys[:cap])
         return keys
-    req_keys = pick(scheds_req, None if thorough else 1500)
-    tm_keys = pick(scheds_tm, None if thorough else 1300)
-    held_keys = pick(scheds_held, None if thorough else 800)
-    sent_keys = pick(scheds_sent, None if thorough else 750)
+    req_keys = pick(scheds_req, None if thorough else 1100)
+    tm_keys = pick(scheds_tm, None if thorough else 1000)
+    held_keys = pick(scheds_held, None if thorough else 600)
+    sent_keys = pick(scheds_sent, None if thorough else 550)
+    lst_keys = pick(scheds_lst, None if thorough else 350)
     full_cover = thorough
 
     # ---- replay on the real code ----------------------------------------------------------
@@ -1122,13 +1163,22 @@ def run(chk: Check, args):
     for n, key in enumerate(keys[:(500 if thorough else 120)]):
         rt, wt, st = key
         plan.append((dict(rig='F', rt=rt, wt=wt, items=0, conc=conc + 3 * n), st, scheds_sent[key]))
+    for n, key in enumerate(lst_keys):
+        rt, wt, st = key
+        # the model's pair (suspending, plain) slot-exactly; other listener sets on the same schedules
+        plan.append((dict(rig='L' if n % 6 else 'F', rt=rt, wt=wt, items=1, conc=conc + n,
+                          lst='us' if n % 2 == 0 else LST_CODES[(n // 2) % len(LST_CODES)]), st, scheds_lst[key]))
+    # the other request histories: every third one with some listeners of the removed event
+    for n, (cfg, st, src) in enumerate(plan):
+        if cfg['rig'] in 'LF' and 'lst' not in cfg and not src.startswith('sim:') and n % 3 == 0:
+            cfg['lst'] = LST_CODES[(n // 3) % len(LST_CODES)]
     for n, key in enumerate(tm_keys):
         plan.append((dict(rig='T', tick=(1.0, 0.5, 0.25)[n % 3], conc=conc + n), key[2], scheds_tm[key]))
-    for n in range(2500 if thorough else 300):
+    for n in range(2500 if thorough else 250):
         cfg, st = random_request_scenario(chk.rng, 'L' if n % 4 else 'F')
         cfg['conc'] = conc + 13 * n
         plan.append((cfg, st, 'random'))
-    for n in range(2000 if thorough else 300):
+    for n in range(2000 if thorough else 250):
         cfg, st = random_timer_scenario(chk.rng)
         cfg['conc'] = conc + 17 * n
         plan.append((cfg, st, 'random'))
@@ -1201,7 +1251,8 @@ def run(chk: Check, args):
     want = ['drop-removed-event', 'duplicate-removed-event', 'drop-result-of-live-reply',
             'result-for-reply-with-dead-ticket', 'second-live-request-with-same-ticket',
             'loop-error-after-removal', 'removed-event-after-manual-removal', 'fire-after-cancel', 'drop-fire',
-            'duplicate-result-of-reply-in-flight', 'drop-result-of-reply-in-flight']
+            'duplicate-result-of-reply-in-flight', 'drop-result-of-reply-in-flight',
+            'drop-listener-report', 'duplicate-listener-report']
     got = {w: [] for w in want}
     for tid in sorted(v.accepted):
         need = {w for w in want if len(got[w]) < 3}
